@@ -23,6 +23,9 @@ pub enum Op {
     Dispose(u32),
     SetCredit(u32),
     Drain,
+    /// (Manual mode, no credit outstanding, nothing queued) detach without closing and resume; the sender
+    /// answers the second attach with this initial delivery-count
+    Resume { idc: u32 },
 }
 
 #[derive(Clone, Debug, PartialEq)]
@@ -31,6 +34,8 @@ pub struct Case {
     /// Some(n) = Auto(n), None = Manual
     pub auto: Option<u32>,
     pub ops: Vec<Op>,
+    /// bit k mod 64: the k-th delivery is sent settled by the sender
+    pub settled: u64,
 }
 
 fn o(x: Option<u32>) -> i64 {
@@ -46,6 +51,7 @@ impl Op {
             Op::Dispose(k) => format!("R dispose {}", k),
             Op::SetCredit(c) => format!("R setcredit {}", c),
             Op::Drain => "R drain".into(),
+            Op::Resume { idc } => format!("R resume {}", idc),
         }
     }
 }
@@ -64,7 +70,7 @@ impl Case {
         v
     }
     pub fn to_json(&self) -> J {
-        json!({"initial_delivery_count": self.idc, "auto": self.auto, "ops": self.ops.iter().map(|x| x.line()).collect::<Vec<_>>()})
+        json!({"initial_delivery_count": self.idc, "auto": self.auto, "settled": self.settled, "ops": self.ops.iter().map(|x| x.line()).collect::<Vec<_>>()})
     }
     pub fn from_json(j: &J) -> Option<Case> {
         let mut ops = vec![];
@@ -78,10 +84,11 @@ impl Case {
                 ["R", "dispose", k] => Op::Dispose(num(k)? as u32),
                 ["R", "setcredit", c] => Op::SetCredit(num(c)? as u32),
                 ["R", "drain"] => Op::Drain,
+                ["R", "resume", a] => Op::Resume { idc: num(a)? as u32 },
                 _ => return None,
             });
         }
-        Some(Case { idc: j.get("initial_delivery_count")?.as_u64()? as u32, auto: j.get("auto").and_then(|x| x.as_u64()).map(|x| x as u32), ops })
+        Some(Case { idc: j.get("initial_delivery_count")?.as_u64()? as u32, auto: j.get("auto").and_then(|x| x.as_u64()).map(|x| x as u32), ops, settled: j.get("settled").and_then(|x| x.as_u64()).unwrap_or(0) })
     }
 }
 
@@ -204,7 +211,7 @@ pub fn run_impl(case: &Case) -> Result<Vec<StepOut>, String> {
                     if !in_delivery {
                         t.delivery_id = Some(next_delivery_id);
                         t.delivery_tag = Some(next_delivery_id.to_be_bytes().to_vec().into());
-                        t.settled = Some(false);
+                        t.settled = Some((case.settled >> (next_delivery_id % 64)) & 1 == 1);
                     } else {
                         t.message_format = None;
                     }
@@ -249,6 +256,27 @@ pub fn run_impl(case: &Case) -> Result<Vec<StepOut>, String> {
                 }
                 Op::SetCredit(c) => receiver.set_credit(*c).await.map_err(|e| format!("set_credit: {:?}", e))?,
                 Op::Drain => receiver.drain().await.map_err(|e| format!("drain: {:?}", e))?,
+                Op::Resume { idc } => {
+                    let det = tokio::spawn(async move { receiver.detach().await });
+                    loop {
+                        match peer.recv_frame().await {
+                            Ok((_, Performative::Detach(_), _)) => {
+                                peer.send(0, Performative::Detach(fe2o3_amqp_types::performatives::Detach { handle: Handle(0), closed: false, error: None }), &[]).await.map_err(|e| format!("{:?}", e))?;
+                                break;
+                            }
+                            Ok(_) => {}
+                            Err(e) => return Err(format!("no detach from the receiver: {:?}", e)),
+                        }
+                    }
+                    let detached = det.await.map_err(|e| format!("join: {:?}", e))?.map_err(|(_, e)| format!("detach: {:?}", e))?;
+                    let res = tokio::spawn(async move { detached.resume().await });
+                    peer.accept_attach(0, 0, Some(*idc), ReceiverSettleMode::First).await.map_err(|e| format!("peer re-attach: {:?}", e))?;
+                    receiver = match res.await.map_err(|e| format!("join: {:?}", e))? {
+                        Ok(fe2o3_amqp::link::receiver::ResumingReceiver::Complete(r)) | Ok(fe2o3_amqp::link::receiver::ResumingReceiver::IncompleteUnsettled(r)) | Ok(fe2o3_amqp::link::receiver::ResumingReceiver::Resume(r)) => r,
+                        Err(e) => return Err(format!("resume: {:?}", e.kind)),
+                    };
+                    peer_dc = *idc;
+                }
             }
             let flows = drain_wire(&mut peer).await;
             let stop = matches!(event.as_deref(), Some(e) if e.starts_with('L') || e.starts_with('X'));
@@ -343,6 +371,9 @@ pub fn check_property(case: &Case, outs: &[StepOut]) -> Option<(String, String)>
                 undisposed = undisposed.saturating_sub(*k);
             }
             Op::SetCredit(_) | Op::Drain => {}
+            Op::Resume { idc } => {
+                ghost = *idc;
+            }
         }
         for f in &o.flows {
             // every flow reports delivery-count = last learnt + arrived since - still queued
@@ -465,7 +496,12 @@ pub fn gen_case(rng: &mut Rng, max_ops: u64) -> Case {
             ops.push(Op::Drain);
         }
     }
-    Case { idc, auto, ops }
+    let settled = match rng.below(3) {
+        0 => 0,
+        1 => u64::MAX,
+        _ => rng.next(),
+    };
+    Case { idc, auto, ops, settled }
 }
 
 fn evaluate(case: &Case) -> (Vec<StepOut>, Option<(String, String)>) {
@@ -484,6 +520,12 @@ fn evaluate(case: &Case) -> (Vec<StepOut>, Option<(String, String)>) {
 /// a scripted sender that sends `total` deliveries, each only when the credit it was last told
 /// allows it.  Returns (deliveries the application received, deliveries the sender could send).
 pub fn run_stream(auto_n: u32, buffer: usize, auto_accept: bool, total: u32, idc: u32, second: bool) -> Result<(u32, u32), String> {
+    run_stream_with(auto_n, buffer, auto_accept, total, idc, second, false, 1)
+}
+
+/// `sender_settled`: the sender sends its deliveries settled; `batch`: the application acknowledges
+/// `batch` deliveries at a time with accept_all (never more than the credit it grants)
+pub fn run_stream_with(auto_n: u32, buffer: usize, auto_accept: bool, total: u32, idc: u32, second: bool, sender_settled: bool, batch: usize) -> Result<(u32, u32), String> {
     let rt = paused_runtime();
     rt.block_on(async move {
         let (cio, pio) = tokio::io::duplex(1 << 20);
@@ -501,14 +543,28 @@ pub fn run_stream(auto_n: u32, buffer: usize, auto_accept: bool, total: u32, idc
                 .await
                 .map_err(|e| format!("attach: {:?}", e))?;
             let mut got = 0u32;
+            let batch = batch.max(1).min(auto_n as usize);
+            let mut held: Vec<DeliveryInfo> = vec![];
             while got < total {
                 match tokio::time::timeout(Duration::from_secs(3), receiver.recv::<Value>()).await {
-                    Err(_) => break,
+                    Err(_) => {
+                        if held.is_empty() {
+                            break;
+                        }
+                        receiver.accept_all(std::mem::take(&mut held)).await.map_err(|e| format!("accept_all: {:?}", e))?;
+                    }
                     Ok(Err(e)) => return Err(format!("recv: {:?}", e)),
                     Ok(Ok(d)) => {
                         got += 1;
                         if !auto_accept {
-                            receiver.accept(&d).await.map_err(|e| format!("accept: {:?}", e))?;
+                            if batch <= 1 {
+                                receiver.accept(&d).await.map_err(|e| format!("accept: {:?}", e))?;
+                            } else {
+                                held.push(DeliveryInfo::from(&d));
+                                if held.len() >= batch {
+                                    receiver.accept_all(std::mem::take(&mut held)).await.map_err(|e| format!("accept_all: {:?}", e))?;
+                                }
+                            }
                         }
                     }
                 }
@@ -526,7 +582,7 @@ pub fn run_stream(auto_n: u32, buffer: usize, auto_accept: bool, total: u32, idc
             // credit left?
             if limit.wrapping_sub(dc) as i32 > 0 {
                 let msg = message_bytes(sent as u64 + 1, 16);
-                let t = transfer(0, Some(sent), Some(sent.to_be_bytes().to_vec()), Some(false), false);
+                let t = transfer(0, Some(sent), Some(sent.to_be_bytes().to_vec()), Some(sender_settled), false);
                 peer.send(0, Performative::Transfer(t), &msg).await.map_err(|e| format!("{:?}", e))?;
                 dc = dc.wrapping_add(1);
                 sent += 1;
@@ -586,7 +642,7 @@ pub fn main(opts: &Opts) {
         if let Some(c) = j.get("stream") {
             let g = |k: &str| c.get(k).and_then(|x| x.as_u64()).unwrap_or(0);
             let b = |k: &str| c.get(k).and_then(|x| x.as_bool()).unwrap_or(false);
-            let r = run_stream(g("auto") as u32, g("buffer") as usize, b("auto_accept"), g("total") as u32, g("idc") as u32, b("second"));
+            let r = run_stream_with(g("auto") as u32, g("buffer") as usize, b("auto_accept"), g("total") as u32, g("idc") as u32, b("second"), b("sender_settled"), g("batch").max(1) as usize);
             println!("{:?}", r);
             match r {
                 Ok((got, _)) if got as u64 == g("total") => {
@@ -637,6 +693,24 @@ pub fn main(opts: &Opts) {
         }
     }
     report.count_n("corpus_cases", corpus.len() as u64);
+    // detach without closing, resume: the second attach of the sender carries another initial delivery-count
+    for (idc1, idc2) in [(100u32, 500u32), (7, 0), (0, u32::MAX - 1), (3, 3)] {
+        for k in [1usize, 3] {
+            let mut ops = vec![Op::SetCredit(k as u32)];
+            for _ in 0..k {
+                ops.push(Op::Arrive { more: false, aborted: false });
+            }
+            for _ in 0..k {
+                ops.push(Op::Recv);
+            }
+            for _ in 0..k {
+                ops.push(Op::Dispose(1));
+            }
+            ops.push(Op::Resume { idc: idc2 });
+            ops.extend([Op::SetCredit(5), Op::Arrive { more: false, aborted: false }, Op::Arrive { more: true, aborted: false }, Op::Arrive { more: false, aborted: false }, Op::Recv, Op::Recv, Op::SetCredit(4), Op::Dispose(2), Op::SetCredit(2)]);
+            corpus.push(Case { idc: idc1, auto: None, ops, settled: if k == 1 { 0 } else { u64::MAX } });
+        }
+    }
     let total = corpus.len() as u64 + n_cases;
     for k in 0..total {
         let case = if (k as usize) < corpus.len() { corpus[k as usize].clone() } else { gen_case(&mut rng, max_ops) };
@@ -653,6 +727,7 @@ pub fn main(opts: &Opts) {
                 Op::Dispose(_) => "op_dispose_batch",
                 Op::SetCredit(_) => "op_set_credit",
                 Op::Drain => "op_drain",
+                Op::Resume { .. } => "op_detach_and_resume",
             });
         }
         let flows: usize = outs.iter().map(|o| o.flows.len()).sum();
@@ -730,29 +805,33 @@ pub fn main(opts: &Opts) {
         report.notes.push("model driver not available: correspondence skipped".into());
     }
     // streams: credit is re-issued in time, whatever the queue between link and session holds
-    let mut streams: Vec<(u32, usize, bool, u32, bool)> = vec![];
+    let mut streams: Vec<(u32, usize, bool, u32, bool, bool, usize)> = vec![];
     for &n in &[1u32, 2, 3, 7, 50] {
         for &b in &[1usize, 2, 3, 2048] {
             for &aa in &[true, false] {
-                streams.push((n, b, aa, *rng.pick(&[0u32, 5, u32::MAX - 2]), rng.chance(1, 3)));
+                streams.push((n, b, aa, *rng.pick(&[0u32, 5, u32::MAX - 2]), rng.chance(1, 3), false, 1));
             }
+            // the sender settles its deliveries itself / the application acknowledges in batches
+            streams.push((n, b, false, *rng.pick(&[0u32, 5, u32::MAX - 2]), false, true, 2));
+            streams.push((n, b, false, 0, rng.chance(1, 3), false, 3));
+            streams.push((n, b, true, 0, false, true, 1));
         }
     }
-    for (n, b, aa, idc, second) in streams {
+    for (n, b, aa, idc, second, sender_settled, batch) in streams {
         let total = 3 * n + 5;
         report.evaluations += 1;
         report.count("stream_cases");
-        report.nontrivial_case(fnv(&format!("stream{}/{}/{}/{}/{}", n, b, aa, idc, second)));
-        let replay = json!({"property": "C09", "module": "recvcredit", "stream": {"auto": n, "buffer": b, "auto_accept": aa, "idc": idc, "second": second, "total": total}});
-        match run_stream(n, b, aa, total, idc, second) {
+        report.nontrivial_case(fnv(&format!("stream{}/{}/{}/{}/{}/{}/{}", n, b, aa, idc, second, sender_settled, batch)));
+        let replay = json!({"property": "C09", "module": "recvcredit", "stream": {"auto": n, "buffer": b, "auto_accept": aa, "idc": idc, "second": second, "total": total, "sender_settled": sender_settled, "batch": batch}});
+        match run_stream_with(n, b, aa, total, idc, second, sender_settled, batch) {
             Ok((got, sent)) => {
                 if got < total {
                     report.finding(Finding {
                         kind: "violation",
                         key: "stream-stalls".into(),
                         description: format!(
-                            "Auto({}) receiver (auto-accept {}, rcv-settle-mode {}, session buffer_size {}, initial delivery-count {}): a sender that respects credit could send only {} of {} deliveries and the application received {}: credit was not re-issued",
-                            n, aa, if second { "second" } else { "first" }, b, idc, sent, total, got
+                            "Auto({}) receiver (auto-accept {}, rcv-settle-mode {}, session buffer_size {}, initial delivery-count {}, sender-settled {}, acknowledged {} at a time): a sender that respects credit could send only {} of {} deliveries and the application received {}: credit was not re-issued",
+                            n, aa, if second { "second" } else { "first" }, b, idc, sender_settled, batch, sent, total, got
                         ),
                         replay,
                     });
